@@ -23,6 +23,7 @@ func c04Cfg() core.GenCfg {
 	c := c01Cfg()
 	c.HolderBytes = true
 	c.MaxBytes = 2048
+	c.WideEnums = true
 	return c
 }
 
